@@ -847,7 +847,7 @@ def replay(path):
     if not rp:
         print(f'[C16] {path}: no replayable case in this file')
         return 2
-    for name, ok, msg in common.run_translators(['T8']):
+    for name, ok, msg in common.run_translators(['T8', 'T9']):
         if not ok:
             print(f'[C16] translator {name} failed: {msg}')
             return 2
@@ -893,7 +893,7 @@ def check(tier, seed):
         'parser refuses is counted, not judged',
         'IEEE-754 single precision of rate-limit is computed by struct.pack on the harness side',
     ]
-    common.standard_build(run, ['T8'])
+    common.standard_build(run, ['T8', 'T9'])
     rng = random.Random(seed)
 
     # ---------------------------------------------------------------- encode direction
